@@ -49,6 +49,8 @@ pub struct Profile {
     pub p_obs_counts: u32,
     /// add a quiescent epilogue (main keeps its roots) when every task has bounded waits only
     pub epilogue: bool,
+    /// percent of runs that use the bulk variant (long producer, large / unbounded buffer)
+    pub p_bulk: u32,
 }
 
 impl Default for Profile {
@@ -62,7 +64,8 @@ impl Default for Profile {
                 (Cap::Bounded(0), 30),
                 (Cap::Bounded(1), 25),
                 (Cap::Bounded(2), 15),
-                (Cap::Bounded(3), 10),
+                (Cap::Bounded(3), 8),
+                (Cap::Bounded(8), 2),
                 (Cap::Unbounded, 10),
             ],
             classes: ALL_CLASSES.to_vec(),
@@ -89,6 +92,7 @@ impl Default for Profile {
             min_tasks: 2,
             p_obs_counts: 20,
             epilogue: false,
+            p_bulk: 2,
         }
     }
 }
@@ -283,8 +287,50 @@ pub fn pick_cap(rng: &mut Rng, p: &Profile) -> Cap {
     p.caps[rng.weighted(&w)].0
 }
 
+/// Bulk variant: one producer pushes 35-70 values through a large or unbounded buffer (the unbounded queue
+/// starts with room for 32 values and has to grow and wrap), consumers drain it in different ways.
+fn gen_bulk(rng: &mut Rng, p: &Profile) -> Case {
+    let cap = *rng.pick(&[Cap::Unbounded, Cap::Unbounded, Cap::Bounded(8), Cap::Bounded(33)]);
+    let class = *rng.pick(&p.classes);
+    let n = rng.range(35, 70) as u32;
+    let fl = |rng: &mut Rng| if rng.chance(1, 2) { Flavour::Async } else { Flavour::Sync };
+    let mut sops = Vec::new();
+    for id in 0..n {
+        sops.push(match (cap, rng.below(10)) {
+            (Cap::Unbounded, 0..=5) => Op::TrySend { h: 0, id },
+            (Cap::Unbounded, 6..=7) => Op::Send { h: 0, id },
+            (Cap::Unbounded, _) => Op::ASend { h: 0, id, plan: PollPlan::default() },
+            (_, 0..=4) => Op::Send { h: 0, id },
+            (_, 5..=6) => Op::SendTimeout { h: 0, id, us: 100 },
+            (_, _) => Op::ASend { h: 0, id, plan: PollPlan::default() },
+        });
+        if rng.chance(1, 12) {
+            sops.push(Op::Observe { h: 0, what: *rng.pick(&[Obs::Len, Obs::IsFull, Obs::IsEmpty]) });
+        }
+    }
+    let mut rops = Vec::new();
+    for _ in 0..rng.range(0, 6) {
+        rops.push(match rng.below(5) {
+            0 => Op::Drain { h: 0, pre: 0, spare: *rng.pick(&[0u8, 4]) },
+            1 => Op::Recv { h: 0 },
+            2 => Op::TryRecv { h: 0 },
+            3 => Op::Yield,
+            _ => Op::ARecv { h: 0, plan: PollPlan::default() },
+        });
+    }
+    rops.push(Op::RecvAll { h: 0, max: 100 });
+    let tasks = vec![
+        TaskSpec { handles: vec![HandleSpec { side: Side::S, flavour: fl(rng), derive: Derive::CloneAs }], ops: sops },
+        TaskSpec { handles: vec![HandleSpec { side: Side::R, flavour: fl(rng), derive: Derive::CloneAs }], ops: rops },
+    ];
+    Case { cap, ctor: fl(rng), class, mask: rng.next(), knobs: gen_knobs(rng, p), tasks, main_keeps_roots: false, lock_harness: false, epilogue: vec![] }
+}
+
 /// G-mpmc and its parameterisations.
 pub fn gen_case(rng: &mut Rng, p: &Profile) -> Case {
+    if rng.below(100) < p.p_bulk as u64 {
+        return gen_bulk(rng, p);
+    }
     let cap = pick_cap(rng, p);
     let class = *rng.pick(&p.classes);
     let ctor = if rng.chance(1, 2) { Flavour::Sync } else { Flavour::Async };
@@ -461,6 +507,7 @@ pub fn profile_for(prop: &str) -> Profile {
             p.caps = vec![(Cap::Bounded(0), 30), (Cap::Bounded(1), 25), (Cap::Bounded(2), 20), (Cap::Bounded(3), 10), (Cap::Unbounded, 15)];
         }
         "C03" => {
+            p.p_bulk = 0;
             p.epilogue = true;
             p.senders = (0, 1);
             p.receivers = (0, 1);
